@@ -20,8 +20,8 @@
                                       gives its child git (`proxy_to_git`), over the extracted tables;
     * `Op.agentCheckpoint`, `Op.heal` — `git-ai checkpoint` between two git commands: its entry point
                                       (`ensure_repo_level_hooks_for_checkpoint`, extracted) restores hook entry points
-                                      that `rebase --abort` left masked (/repo bdec53b6); the empty-todo fallback of the
-                                      post-checkout arm is read from the extracted guard (/repo 52b736f3).
+                                      that `rebase --abort` left masked (/repo a1769f45); the empty-todo fallback of the
+                                      post-checkout arm is read from the extracted guard (/repo 5e878e7b).
 
   Commit ids are scenario-local numbers (`Sha`); the null oid is never a `Sha` (absent values are `Option`).
   Model file: core-only imports plus the extracted table.
